@@ -27,6 +27,7 @@ type slotOp struct {
 	Runners int   `json:"runners"` // number of upstream source runners
 	A       int   `json:"a"`       // id of the interrupted checkpoint
 	First   []int `json:"first"`   // runners whose barrier of a arrives before the failure (distinct, strict subset)
+	Late    []int `json:"late"`    // runners whose (stale) barrier of a arrives only AFTER the second deploy
 	B       int   `json:"b"`       // id of the checkpoint of the new assembly
 	Second  []int `json:"second"`  // order in which the barriers of b arrive (a permutation of the runners)
 }
@@ -75,7 +76,13 @@ func genSlot(tier string, r *hx.Rand) []*hx.Case {
 		first := append([]int{}, perm[:nf]...)
 		hx.Shuffle(r, perm)
 		a := r.Range(1, 5)
-		op := slotOp{Runners: k, A: a, First: first, B: a + r.Range(1, 2), Second: append([]int{}, perm...)}
+		var late []int
+		if k > 1 && r.Chance(1, 4) { // a strict subset of the runners delivers a stale barrier of the old checkpoint
+			for _, x := range perm[:r.Range(1, k-1)] {
+				late = append(late, x)
+			}
+		}
+		op := slotOp{Runners: k, A: a, First: first, Late: late, B: a + r.Range(1, 2), Second: append([]int{}, perm...)}
 		cs = append(cs, &hx.Case{Name: fmt.Sprintf("slot-%d", i), Params: map[string]any{"mode": "slot"}, Ops: []json.RawMessage{hx.Op(op)}})
 	}
 	return cs
@@ -83,7 +90,7 @@ func genSlot(tier string, r *hx.Rand) []*hx.Case {
 
 func executeSlot(c *hx.Case) (*hx.Result, error) {
 	if len(c.Ops) == 0 {
-		return &hx.Result{Term: "(SlotCase (@nil N) 1 (@nil N) (@nil N) 2 (@nil N) (@nil N))", Tags: []string{"empty"}}, nil
+		return &hx.Result{Term: "(SlotCase (@nil N) 1 (@nil N) (@nil N) (@nil N) (@nil N) 2 (@nil N) (@nil N))", Tags: []string{"empty"}}, nil
 	}
 	var so slotOp
 	if err := json.Unmarshal(c.Ops[0], &so); err != nil {
@@ -148,12 +155,15 @@ func executeSlot(c *hx.Case) (*hx.Result, error) {
 		}
 	}
 	// the operator handles events only once its loop runs and it is Ready; HandleEvent answers Unavailable before
-	var r1, r2 []uint64
+	var r1, rl, r2 []uint64
 	for _, s := range so.First {
 		r1 = append(r1, barrier(s%so.Runners, so.A))
 	}
 	if err := deploy(); err != nil {
 		return nil, fmt.Errorf("second deploy: %w", err)
+	}
+	for _, s := range so.Late {
+		rl = append(rl, barrier(s%so.Runners, so.A))
 	}
 	for _, s := range so.Second {
 		r2 = append(r2, barrier(s%so.Runners, so.B))
@@ -170,7 +180,10 @@ func executeSlot(c *hx.Case) (*hx.Result, error) {
 		runners[i] = uint64(i)
 	}
 	tags := []string{fmt.Sprintf("runners=%d", so.Runners), fmt.Sprintf("barriers-before-redeploy=%d", len(so.First))}
-	term := fmt.Sprintf("(SlotCase %s %d %s %s %d %s %s)", nlist(runners), so.A, nlist(conv(so.First)), nlist(r1), so.B, nlist(conv(so.Second)), nlist(r2))
+	if len(so.Late) > 0 {
+		tags = append(tags, "stale-barrier-after-redeploy")
+	}
+	term := fmt.Sprintf("(SlotCase %s %d %s %s %s %s %d %s %s)", nlist(runners), so.A, nlist(conv(so.First)), nlist(r1), nlist(conv(so.Late)), nlist(rl), so.B, nlist(conv(so.Second)), nlist(r2))
 	return &hx.Result{Term: term, Nontrivial: len(so.First) > 0, Tags: tags,
-		Observed: map[string]any{"first_results": r1, "second_results": r2}}, nil
+		Observed: map[string]any{"first_results": r1, "late_results": rl, "second_results": r2}}, nil
 }
